@@ -580,6 +580,25 @@ impl QPop {
         QPop { ingress, recs, wd }
     }
     fn show(&self) -> String { format!("{}|{}", join(self.recs.iter().map(|r| r.show()), ";"), join(self.wd.iter(), ",")) }
+    /// everything the population was built from, `~`-separated (last field of an `R` line: replays only, the driver ignores it)
+    fn show_full(&self) -> String {
+        format!("{}~{}~{}", join(self.recs.iter().map(|r| format!("{},{},{}", r.show(), join(r.path.iter(), "."), join(r.comms.iter().map(|(a, b)| format!("{a}:{b}")), "."))), ";"), join(self.wd.iter(), ","),
+            join(self.ingress.iter().map(|(i, a)| format!("{}:{}", i, a.map_or("-".to_string(), |a| a.to_string()))), ","))
+    }
+    fn parse_full(t: &str) -> Option<QPop> {
+        let f: Vec<&str> = t.split('~').collect();
+        if f.len() != 3 { return None; }
+        let mut recs = vec![];
+        if !f[0].is_empty() { for r in f[0].split(';') {
+            let g: Vec<&str> = r.split(',').collect(); if g.len() != 7 { return None; }
+            let path = if g[5].is_empty() { vec![] } else { g[5].split('.').map(|x| x.parse().ok()).collect::<Option<Vec<u32>>>()? };
+            let comms = if g[6].is_empty() { vec![] } else { g[6].split('.').map(|x| { let (a, b) = x.split_once(':')?; Some((a.parse().ok()?, b.parse().ok()?)) }).collect::<Option<Vec<(u16, u16)>>>()? };
+            recs.push(QRec { mc: g[0] == "m", pfx: QPfx::parse_show(g[1])?, mui: g[2].parse().ok()?, active: g[3] == "A", aid: g[4].parse().ok()?, path, comms });
+        } }
+        let wd = if f[1].is_empty() { vec![] } else { f[1].split(',').map(|m| m.parse().ok()).collect::<Option<Vec<_>>>()? };
+        let ingress = if f[2].is_empty() { vec![] } else { f[2].split(',').map(|e| { let (i, a) = e.split_once(':')?; Some((i.parse().ok()?, if a == "-" { None } else { Some(a.parse().ok()?) })) }).collect::<Option<Vec<_>>>()? };
+        Some(QPop { ingress, recs, wd })
+    }
     fn parse(recs: &str, wd: &str) -> Option<QPop> {
         let recs = if recs.is_empty() { vec![] } else { recs.split(';').map(|r| { let f: Vec<&str> = r.split(',').collect(); if f.len() != 5 { return None; }
             Some(QRec { mc: f[0] == "m", pfx: QPfx::parse_show(f[1])?, mui: f[2].parse().ok()?, active: f[3] == "A", aid: f[4].parse().ok()?, path: vec![], comms: vec![] }) }).collect::<Option<Vec<_>>>()? };
@@ -611,7 +630,7 @@ fn json_sections(body: &str) -> Option<Sections> {
 const RENDER: [&str; 5] = ["sort", "details", "format", "sort_by", "sort_order"];
 fn is_render_param(kv: &str) -> bool { let k = kv.split('=').next().unwrap_or(""); let k = k.split(['[', ']']).next().unwrap_or(""); RENDER.contains(&k) }
 
-struct RCase { pfx: QPfx, query: String }
+struct RCase { pfx: QPfx, query: String, pop: String }
 
 /// `R|…`: returns (case line, impl line, oracle line, nontrivial)
 fn run_r(rt: &tokio::runtime::Runtime, f: &Fx, c: &RCase, rec: &mut Recorder) -> Option<(String, String, String, bool)> {
@@ -623,7 +642,7 @@ fn run_r(rt: &tokio::runtime::Runtime, f: &Fx, c: &RCase, rec: &mut Recorder) ->
     // the store hands the records over in an order that is not part of any contract: it must at least be repeatable
     if let Ok((200, body)) = fx_get(rt, f, &url(&base_q)) { if json_sections(&body).map(|s| s != (bd.clone(), bl.clone(), bm.clone())).unwrap_or(true) { rec.bump("R.unstable-base-order"); return None; } }
     let sec = |s: &Option<Vec<Value>>| match s { None => Some("-".to_string()), Some(v) => enc_list(v).map(|e| if e.is_empty() { ";".into() } else { e }) };
-    let line = format!("R|{}|8,19|{}|{}|{}|{}", c.pfx.show(), hex(c.query.as_bytes()), enc_list(&bd).map(|e| if e.is_empty() { ";".into() } else { e })?, sec(&bl)?, sec(&bm)?);
+    let line = format!("R|{}|8,19|{}|{}|{}|{}|{}", c.pfx.show(), hex(c.query.as_bytes()), enc_list(&bd).map(|e| if e.is_empty() { ";".into() } else { e })?, sec(&bl)?, sec(&bm)?, c.pop);
     let got = fx_get(rt, f, &url(&c.query));
     let show = |p: Option<Vec<usize>>| p.map(|p| format!("[{}]", join(p.iter(), " "))).unwrap_or("?".into());
     let (imp, oracle, nontrivial) = match &got {
@@ -808,6 +827,41 @@ fn record_v(dir: &std::path::Path, mut c: VCase, rec: &mut Recorder, kind: &str)
 }
 
 
+/// The witnesses of the defect sites: they run first and decide the variants the Lean driver is run with.
+fn witnesses(dir: &std::path::Path, rt: &tokio::runtime::Runtime, rec: &mut Recorder) {
+    let (dir, rec) = (dir.to_path_buf(), rec);
+    // W1: a record in the upstream answer
+    let w1 = VCase::parse("V|1.0|0.0|0.5.n=?;0.0.n=?;p.0.n=?;0.5.n=?;x.0.n=?").unwrap();
+    let o1 = record_v(&dir, w1, rec, "witness");
+    let todo = o1.get(1).is_some_and(|t| t.contains("unit.rs:todo"));
+    rec.variant("reprocess", if todo { "as-written" } else { "repaired" });
+    // W2: the client goes away, empty answer
+    let w2 = VCase::parse("V|1.0|0.0|0.c.n=?;p.0.n=?;0.5.n=?;x.0.n=?").unwrap();
+    let o2 = record_v(&dir, w2, rec, "witness");
+    let gone = o2.first().is_some_and(|t| t.contains("unit.rs:unwrap-err"));
+    rec.variant("clientgone", if gone { "as-written" } else { "repaired" });
+    // W3: two routes of one prefix whose ingress ids and MEDs are in opposite order: a sort that sorts cannot keep both orders
+    let wp = QPop { ingress: vec![(1, Some(65001)), (2, Some(65002))], wd: vec![], recs: vec![
+        QRec { mc: false, pfx: QPfx { fam: 4, len: 8, bits: 10 }, mui: 1, active: true, aid: 20, path: vec![1], comms: vec![] },
+        QRec { mc: false, pfx: QPfx { fam: 4, len: 8, bits: 10 }, mui: 2, active: true, aid: 10, path: vec![2], comms: vec![] }] };
+    let mut scope_repaired = false;
+    if let Ok(f) = wp.build() {
+        let mut orders = vec![];
+        for q in ["sort=/ingress_id", "sort=/attributes/3/multiExitDisc"] {
+            if let Some((line, imp, oracle, _)) = run_r(rt, &f, &RCase { pfx: QPfx { fam: 4, len: 8, bits: 10 }, query: q.into(), pop: wp.show_full() }, rec) { orders.push(imp.clone()); rec.bump("R.witness"); rec.case(line, imp, oracle, true); }
+        }
+        scope_repaired = orders.len() == 2 && orders[0] != orders[1];
+    }
+    rec.variant("sortscope", if scope_repaired { "repaired" } else { "as-written" });
+
+    // W4: the per-ingress listing of an ingress whose routes the store's iterator does not all reach
+    let lp = QPop::parse("u,4/24/668673,3,W,60;u,4/16/2612,1,W,31;u,4/16/2613,1,W,52;u,4/16/2613,2,A,73;u,4/24/668672,1,W,34;u,4/24/668672,2,A,95;u,4/24/668672,3,W,56;u,4/17/5225,1,A,17;u,4/17/5225,2,A,58", "").unwrap();
+    let mut listing_contract = true;
+    if let Ok(f) = lp.build() { let (l, imp, o, _) = run_g(rt, &f, &lp, "2"); listing_contract = !o.contains("store-iterator-omits"); rec.bump("G.witness"); rec.case(l, imp, o, true); }
+    rec.variant("listing", if listing_contract { "contract" } else { "as-observed" });
+
+}
+
 fn main() {
     let args = parse_args();
     install_panic_hook();
@@ -826,42 +880,17 @@ fn main() {
         return;
     }
     if let Some(path) = &args.replay {
+        // the variants are detected on this tree in replay mode too (into a scratch recorder: only the replayed cases are reported)
+        let mut scratch = Recorder::new("");
+        witnesses(&dir, &rt, &mut scratch);
+        rec.variants = scratch.variants.clone();
         for line in replay_cases(path) { replay_line(&dir, &rt, &line, &mut rec); }
         rec.finish(&args, t0.elapsed().as_secs_f64());
         let _ = std::fs::remove_dir_all(&dir);
         return;
     }
 
-    // ---- witnesses first: they decide the variants
-    // W1: a record in the upstream answer
-    let w1 = VCase::parse("V|1.0|0.0|0.5.n=?;0.0.n=?;p.0.n=?;0.5.n=?;x.0.n=?").unwrap();
-    let o1 = record_v(&dir, w1, &mut rec, "witness");
-    let todo = o1.get(1).is_some_and(|t| t.contains("unit.rs:todo"));
-    rec.variant("reprocess", if todo { "as-written" } else { "repaired" });
-    // W2: the client goes away, empty answer
-    let w2 = VCase::parse("V|1.0|0.0|0.c.n=?;p.0.n=?;0.5.n=?;x.0.n=?").unwrap();
-    let o2 = record_v(&dir, w2, &mut rec, "witness");
-    let gone = o2.first().is_some_and(|t| t.contains("unit.rs:unwrap-err"));
-    rec.variant("clientgone", if gone { "as-written" } else { "repaired" });
-    // W3: two routes of one prefix whose ingress ids and MEDs are in opposite order: a sort that sorts cannot keep both orders
-    let wp = QPop { ingress: vec![(1, Some(65001)), (2, Some(65002))], wd: vec![], recs: vec![
-        QRec { mc: false, pfx: QPfx { fam: 4, len: 8, bits: 10 }, mui: 1, active: true, aid: 20, path: vec![1], comms: vec![] },
-        QRec { mc: false, pfx: QPfx { fam: 4, len: 8, bits: 10 }, mui: 2, active: true, aid: 10, path: vec![2], comms: vec![] }] };
-    let mut scope_repaired = false;
-    if let Ok(f) = wp.build() {
-        let mut orders = vec![];
-        for q in ["sort=/ingress_id", "sort=/attributes/3/multiExitDisc"] {
-            if let Some((line, imp, oracle, _)) = run_r(&rt, &f, &RCase { pfx: QPfx { fam: 4, len: 8, bits: 10 }, query: q.into() }, &mut rec) { orders.push(imp.clone()); rec.bump("R.witness"); rec.case(line, imp, oracle, true); }
-        }
-        scope_repaired = orders.len() == 2 && orders[0] != orders[1];
-    }
-    rec.variant("sortscope", if scope_repaired { "repaired" } else { "as-written" });
-
-    // W4: the per-ingress listing of an ingress whose routes the store's iterator does not all reach
-    let lp = QPop::parse("u,4/24/668673,3,W,60;u,4/16/2612,1,W,31;u,4/16/2613,1,W,52;u,4/16/2613,2,A,73;u,4/24/668672,1,W,34;u,4/24/668672,2,A,95;u,4/24/668672,3,W,56;u,4/17/5225,1,A,17;u,4/17/5225,2,A,58", "").unwrap();
-    let mut listing_contract = true;
-    if let Ok(f) = lp.build() { let (l, imp, o, _) = run_g(&rt, &f, &lp, "2"); listing_contract = !o.contains("store-iterator-omits"); rec.bump("G.witness"); rec.case(l, imp, o, true); }
-    rec.variant("listing", if listing_contract { "contract" } else { "as-observed" });
+    witnesses(&dir, &rt, &mut rec);
 
     // ---- part A stream
     let n_v = if args.thorough { 160 } else { 22 };
@@ -920,7 +949,7 @@ fn main() {
         for _ in 0..12 {
             let pfx = *rng.pick(&pfxs);
             let query = gen_render_query(&mut rng, &pop);
-            if let Some((line, imp, oracle, nt)) = run_r(&rt, &f, &RCase { pfx, query }, &mut rec) {
+            if let Some((line, imp, oracle, nt)) = run_r(&rt, &f, &RCase { pfx, query, pop: pop.show_full() }, &mut rec) {
                 rec.bump(&format!("R.{}", imp.split_whitespace().next().unwrap_or("")));
                 rec.case(line, imp, oracle, nt);
             }
@@ -954,26 +983,15 @@ fn replay_line(dir: &std::path::Path, rt: &tokio::runtime::Runtime, line: &str, 
                 rec.case(line.to_string(), imp, oracle, vals.len() >= 2);
             }
         }
-        // R and G cases carry the answer / the records but not the attributes the population was built from:
-        // they are replayed on a population rebuilt from the entries (R) or the record list (G)
+        // G cases carry the record list (attributes do not matter for the listing), R cases the whole population
         Some("G") if f.len() == 6 => {
             if let (Some(pop), Some(text)) = (QPop::parse(f[3], f[4]), unhex(f[2]).and_then(|b| String::from_utf8(b).ok())) {
                 if let Ok(fx) = pop.build() { let (l, imp, oracle, nt) = run_g(rt, &fx, &pop, &text); rec.case(l, imp, oracle, nt); }
             }
         }
-        Some("R") if f.len() == 7 => {
-            // rebuild: one record per entry of the three sections (prefix, ingress id, status, MED, AS path, communities are read back)
-            let mut pop = QPop { ingress: vec![], recs: vec![], wd: vec![] };
-            for sec in [f[4], f[5], f[6]] { if sec == "-" { continue; } for e in dec_list(sec).unwrap_or_default() {
-                let Some(pfx) = e["prefix"].as_str().and_then(QPfx::parse_text) else { continue };
-                let mui = e["ingress_id"].as_u64().unwrap_or(0) as u32;
-                if let Some(a) = e["ingress_info"].as_object() { let asn = a.get("remote_asn").map(|x| x.to_string().chars().filter(|c| c.is_ascii_digit()).collect::<String>()).and_then(|s| s.parse().ok()); if !pop.ingress.iter().any(|(i, _)| *i == mui) { pop.ingress.push((mui, asn)); } }
-                let attrs = e["attributes"].as_array().cloned().unwrap_or_default();
-                let aid = attrs.iter().find_map(|x| x.get("multiExitDisc").and_then(|m| m.as_u64())).unwrap_or(0) as u32;
-                pop.recs.push(QRec { mc: false, pfx, mui, active: e["status"] == "active", aid, path: vec![], comms: vec![] });
-            } }
-            if let (Ok(fx), Some(pfx), Some(q)) = (pop.build(), QPfx::parse_show(f[1]), unhex(f[3]).and_then(|b| String::from_utf8(b).ok())) {
-                if let Some((l, imp, oracle, nt)) = run_r(rt, &fx, &RCase { pfx, query: q }, rec) { rec.case(l, imp, oracle, nt); }
+        Some("R") if f.len() == 8 => {
+            if let (Some(pop), Some(pfx), Some(q)) = (QPop::parse_full(f[7]), QPfx::parse_show(f[1]), unhex(f[3]).and_then(|b| String::from_utf8(b).ok())) {
+                if let Ok(fx) = pop.build() { if let Some((l, imp, oracle, nt)) = run_r(rt, &fx, &RCase { pfx, query: q, pop: f[7].to_string() }, rec) { rec.case(l, imp, oracle, nt); } }
             }
         }
         _ => {}
